@@ -282,10 +282,33 @@ pub fn drive(args: &HashMap<String, String>) {
         inputs.push(("nesting".into(), format!("(mod (X) {}X{})", "(f ".repeat(depth), ")".repeat(depth)).into_bytes()));
         inputs.push(("nesting".into(), vec![0xff; depth].into_iter().chain(vec![0x80; depth + 1]).collect()));
     }
+    // full-size valid programs of every generator profile under every sigil: the compiling entry points only
+    // (a compiler that crashes or loops on a *valid* program is the same defect as one that crashes on a malformed one)
+    let first_deep = inputs.len();
+    {
+        let mut gd = Gen::new(rand_chacha::ChaCha8Rng::seed_from_u64(seed ^ 0xdee9), GenOpts::full());
+        let builds = ["cl21", "s21", "cl22", "cl23", "cl231", "cl24", "classic"];
+        let mut made = 0;
+        let mut i = 0;
+        while made < n * 12 && i < n * 40 {
+            gd.o = match i % 4 { 0 => GenOpts::core(), 1 => GenOpts::cse(), 2 => GenOpts::classic(), _ => GenOpts::full() };
+            let p = gd.program();
+            let b = builds[i % builds.len()];
+            i += 1;
+            if !crate::p_compile::renderable(&p, b) {
+                continue;
+            }
+            inputs.push(("valid-deep".into(), p.render(crate::p_compile::sigil_of(b)).into_bytes()));
+            made += 1;
+        }
+    }
     let mut jobs = vec![];
     let mut owner = vec![];
     for (ii, (_, b)) in inputs.iter().enumerate() {
         for e in ENTRIES {
+            if ii >= first_deep && !matches!(e, "compile" | "usecheck" | "preprocess") {
+                continue;
+            }
             jobs.push(json!({"op": "frontend", "entry": e, "bytes": b, "scratch": scratch}));
             owner.push((ii, e));
         }
